@@ -91,6 +91,50 @@ func execMore(args []string) string {
 	return "bad-op"
 }
 
+// legalUciSet: the legal moves of the position a `position …` line sets up (by the engine's own generator), nil if it sets none
+func legalUciSet(line string) map[string]bool {
+	toks := uci.VerifPrepareInput(line)
+	if len(toks) < 2 || toks[0] != "position" {
+		return nil
+	}
+	var p *position.Position
+	rest := toks[1:]
+	switch rest[0] {
+	case "startpos":
+		p = position.New()
+		rest = rest[1:]
+	case "fen":
+		if len(rest) < 7 {
+			return nil
+		}
+		q, err := position.NewFromFen(strings.Join(rest[1:7], " "))
+		if err != nil {
+			return nil
+		}
+		p = q
+		rest = rest[7:]
+	default:
+		return nil
+	}
+	if len(rest) > 1 && rest[0] == "moves" {
+		for _, mv := range rest[1:] {
+			var err error
+			if guard(func() { err = p.MakeMoveFromString(mv) }) || err != nil {
+				break
+			}
+		}
+	}
+	set := map[string]bool{}
+	lms := legalMoves(p)
+	for _, lm := range lms {
+		set[lm.m.String()] = true
+	}
+	if len(lms) == 0 {
+		set["a1a1"] = true
+	}
+	return set
+}
+
 func classifyOut(out string) string {
 	var sb strings.Builder
 	for _, l := range strings.Split(out, "\n") {
@@ -150,9 +194,23 @@ func execDialog(lines []string) string {
 	panicked := false
 	hung := false
 	uci.VerifNewGame()
+	// which answers are legal for the k-th accepted go (by the position set before it)
+	var curLegal map[string]bool
+	var expectLegal []map[string]bool
 	for _, lh := range lines {
 		b, _ := hexDecode(lh)
 		line := string(b)
+		if t := uci.VerifPrepareInput(line); len(t) > 0 {
+			if t[0] == "position" && game.VerifState(uci.VerifGame()) != 2 {
+				if set := legalUciSet(line); set != nil {
+					curLegal = set
+				}
+			} else if t[0] == "ucinewgame" {
+				curLegal = nil
+			} else if t[0] == "go" && game.VerifState(uci.VerifGame()) == 1 {
+				expectLegal = append(expectLegal, curLegal)
+			}
+		}
 		// the handler runs in its own goroutine so that a handler that never returns (a lock that is never
 		// released) is noticed instead of hanging the harness
 		res := make(chan bool, 1)
@@ -195,7 +253,19 @@ func execDialog(lines []string) string {
 		uci.VerifNewGame() // leave the stuck game object behind
 		return "out=HUNG p.nopanic=1 p.answered=0"
 	}
-	return "out=" + classifyOut(out) + " p.nopanic=1 p.answered=1"
+	bestLegal := true
+	k := 0
+	for _, l := range strings.Split(out, "\n") {
+		f := strings.Fields(l)
+		if len(f) == 2 && f[0] == "bestmove" {
+			if k < len(expectLegal) && expectLegal[k] != nil && !expectLegal[k][f[1]] {
+				bestLegal = false
+			}
+			k++
+		}
+	}
+	// every accepted go is answered by exactly one bestmove
+	return "out=" + classifyOut(out) + " p.nopanic=1 p.answered=1 p.bestlegal=" + b2s(bestLegal) + " p.onebest=" + b2s(k == len(expectLegal))
 }
 
 // ---------- generators ----------
@@ -345,6 +415,22 @@ func ecacheOps(o *Out, seed uint64, n int) {
 func dialogOps(o *Out, seed uint64, n int, corpus string) {
 	rng := NewRng(seed)
 	fens := readLines(corpus)
+	// finished games: exactly one answer (the null move) also when the side to move is checkmated or stalemated
+	for _, fen := range fens {
+		p, err := position.NewFromFen(fen)
+		if err != nil || inCheckSafe(p, types.SwitchColor(p.SideToMove)) || len(legalMoves(p)) > 0 {
+			continue
+		}
+		for _, g := range []string{"go depth 2", "go movetime 30", "go wtime 100 btime 100"} {
+			o.Run("dialog " + hexOf("position fen "+fen) + " " + hexOf(g) + " " + hexOf("isready"))
+			o.Stat("terminal_root_dialogues")
+		}
+	}
+	// a second position on the same game object, searched with an immediate timeout (the answer must come from the new position)
+	for i := 0; i < 6; i++ {
+		a, b := fens[rng.Intn(len(fens))], fens[rng.Intn(len(fens))]
+		o.Run("dialog " + hexOf("position fen "+a) + " " + hexOf("go depth 3") + " " + hexOf("position fen "+b) + " " + hexOf([]string{"go movetime 1", "go wtime 1 btime 1", "go wtime 30 btime 30"}[rng.Intn(3)]))
+	}
 	garbage := []string{"xyzzy", "joho", "1234", "Go", "POSITION"}
 	for i := 0; i < n; i++ {
 		var lines []string
